@@ -37,6 +37,12 @@ import dns.zonefile
 
 REPO = os.environ.get("VERIF_REPO", "/repo")
 
+# dns.rdata.get_rdata_class caches GenericRdata under (ANY, type) when an IN-only type is first
+# asked for in class ANY, and a later first lookup of (IN, type) then resolves to GenericRdata for
+# the rest of the process.  Resolve every implemented (class, type) up front so that no result
+# depends on the order of the cases (dynamic loading stays enabled).
+dns.rdata.load_all_types(False)
+
 # ------------------------------------------------------------------------------ watchdog
 # ExceptionWrapper / `except Exception` inside the library would swallow an exception raised by
 # a signal handler, so the handler only sets a flag and raises; the flag decides.
@@ -58,7 +64,9 @@ def guarded(fn, seconds):
     """run fn(); returns (value, exception, hung)"""
     _hang_flag[0] = 0
     old = signal.signal(signal.SIGALRM, _on_alarm)
-    signal.setitimer(signal.ITIMER_REAL, seconds, 0.25)
+    # after the first shot the alarm re-fires every 2 ms: code that swallows the exception
+    # (ExceptionWrapper, continue_on_error: once per record) is thrown out again at once
+    signal.setitimer(signal.ITIMER_REAL, seconds, 0.002)
     val = exc = None
     try:
         try:
@@ -371,9 +379,14 @@ def fix_payload(entry, payload):
     return payload
 
 
-def run_probe(entry, payload, seconds=10.0):
+PROBE_SECONDS = float(os.environ.get("VERIF_C04_PROBE_SECONDS", "6"))
+
+
+def run_probe(entry, payload, seconds=None):
     """-> (outcome string, failure dict or None)"""
     payload = fix_payload(entry, payload)
+    if seconds is None:
+        seconds = PROBE_SECONDS
     val, exc, hung = guarded(lambda: ENTRIES[entry](payload), seconds)
     if hung:
         return "hang", {"kind": "hang", "entry": entry, "what": f"{entry}: no result within {seconds}s", "probe": [entry, payload]}
@@ -522,6 +535,17 @@ def all_rdtypes():
     return sorted(set(out))
 
 
+def _seed_call(fn):
+    """the code under test is also used to sort the seeds; it may hang or fail (that is for the
+    probes to report, not for seed loading to die of)"""
+    val, exc, hung = guarded(fn, 3.0)
+    if hung:
+        raise RuntimeError("hang while preparing a seed")
+    if exc is not None:
+        raise exc
+    return val
+
+
 def load_seeds():
     """specimens: zone lines of tests/example*, (class,type,text,wire) of every rdata in them,
     str/bytes literals of tests/*.py, hex blobs that decode to messages"""
@@ -551,7 +575,7 @@ def load_seeds():
     seen = set()
     for txt in s.zone_texts[:2]:
         try:
-            z = dns.zone.from_text(txt, origin="example.", relativize=False, check_origin=False)
+            z = _seed_call(lambda: dns.zone.from_text(txt, origin="example.", relativize=False, check_origin=False))
         except Exception:  # noqa
             continue
         for name, rds in z.iterate_rdatasets():
@@ -608,7 +632,7 @@ def load_seeds():
     ]
     for rc, tn, txt in extra_text:
         try:
-            rd = dns.rdata.from_text(rc, tn, txt, origin=dns.name.from_text("example."), relativize=False)
+            rd = _seed_call(lambda: dns.rdata.from_text(rc, tn, txt, origin=dns.name.from_text("example."), relativize=False))
             key = (int(rd.rdclass), int(rd.rdtype), rd.to_text())
             if key not in seen:
                 seen.add(key)
@@ -665,13 +689,13 @@ def load_seeds():
     for w in s.wires:
         if len(w) >= 12:
             try:
-                dns.message.from_wire(w, keyring=False, ignore_trailing=True)
+                _seed_call(lambda: dns.message.from_wire(w, keyring=False, ignore_trailing=True))
                 s.msg_wires.append(w)
             except Exception:  # noqa
                 pass
     for t in s.msg_texts:
         try:
-            s.msg_wires.append(dns.message.from_text(t).to_wire())
+            s.msg_wires.append(_seed_call(lambda: dns.message.from_text(t).to_wire()))
         except Exception:  # noqa
             pass
     _seeds = s
@@ -906,6 +930,32 @@ def gen_probe(rng, s, entry=None):
         if mut:
             t = mutate_text(rng, t)
         return entry, [rdclass, rdtype, t, rng.randrange(4), rng.randrange(2)]
+    if entry == "read_rrsets" and rng.random() < 0.75:
+        # text shaped after the forcing options: forced fields are absent from the lines
+        mode = rng.randrange(64)
+        lines = []
+        for _ in range(rng.choice([1, 1, 2, 4])):
+            rc, rt, t, _ = rng.choice(s.rdatas)
+            if mode & 16:
+                rt, t = 1, rng.choice(["10.0.0.1", "1.2.3.4", "255.255.255.255", "0.0.0.0"])
+            if not t:
+                continue
+            f = []
+            if not mode & 1:
+                f.append(rng.choice(["www.example.", "a", "@", "*.b", "x.y.example."]))
+            if not mode & 2 and (not mode & 32 or rng.random() < 0.5):
+                f.append(rng.choice(["300", "1h", "0", "4294967295"]))
+            if mode & 4:
+                f.append(dns.rdataclass.to_text(rc) if rc in (1, 3) else "IN")
+            if not mode & 16:
+                f.append(dns.rdatatype.to_text(rt))
+            f.append(t)
+            ln = " ".join(f)
+            if mut and rng.random() < 0.5:
+                ln = mutate_text(rng, ln)
+            lines.append(ln)
+        t = tame_generate("\n".join(lines) + rng.choice(["\n", ""]))
+        return entry, [t, mode, rng.randrange(4), rng.randrange(2)]
     if entry in ("zone_text", "read_rrsets"):
         r = rng.random()
         base = ["$ORIGIN example.", "$TTL 300", "@ IN SOA ns1 hostmaster 1 2 3 4 5", "@ NS ns1", "ns1 A 10.0.0.1"] if rng.random() < 0.7 else []
@@ -960,14 +1010,20 @@ def fuzz_batch(args):
     s = load_seeds()
     counts = {}
     fails = []
+    hangs = 0
     for _ in range(n):
         e, p = gen_probe(rng, s, entry)
-        out, f = run_probe(e, p, seconds=10.0)
+        out, f = run_probe(e, p, seconds=PROBE_SECONDS)
         k = e + ":" + out.split(":")[0]
         counts[k] = counts.get(k, 0) + 1
         if f is not None:
             if len(fails) < 200:
                 fails.append(f)
+            if f["kind"] == "hang":
+                hangs += 1
+                if hangs >= 3:
+                    # every further hang costs a full watchdog period; three replayable ones are enough
+                    break
     return counts, fails
 
 
